@@ -548,11 +548,41 @@ func runC12(c *core.Ctx) {
 
 	// ---- R12.3
 	gc := c.P.Fn("bsdiff/lrufile", "lruFile.getChunk")
-	ev := c.P.Fn("bsdiff/lrufile", "lruFile.onEvict")
 	rst := c.P.Fn("bsdiff/lrufile", "lruFile.Reset")
 	nw := c.P.Fn("bsdiff/lrufile", "New")
-	if gc == nil || ev == nil || rst == nil || nw == nil {
-		c.Missing("R12.3", "bsdiff/lrufile.(*lruFile).getChunk/onEvict/Reset, New", "the cache's slot bookkeeping functions were not found")
+	if gc == nil || rst == nil || nw == nil {
+		c.Missing("R12.3", "bsdiff/lrufile.(*lruFile).getChunk/Reset, New", "the cache's slot bookkeeping functions were not found")
+		return
+	}
+	// the eviction callback is whatever function New registers with the LRU: a method value or a literal
+	var ev *ssa.Function
+	for _, cl := range core.Calls(nw, false) {
+		if strings.HasSuffix(core.CalleeName(cl), "simplelru.NewLRU") && len(cl.Common().Args) > 1 {
+			for _, o := range core.Origins(cl.Common().Args[1]) {
+				mc, ok := o.(*ssa.MakeClosure)
+				if !ok {
+					continue
+				}
+				w, ok := mc.Fn.(*ssa.Function)
+				if !ok {
+					continue
+				}
+				if w.Synthetic != "" {
+					core.Instrs(w, func(x ssa.Instruction) {
+						if cc, ok := x.(ssa.CallInstruction); ok {
+							if sc := cc.Common().StaticCallee(); sc != nil && len(sc.Blocks) > 0 {
+								ev = sc
+							}
+						}
+					})
+				} else {
+					ev = w
+				}
+			}
+		}
+	}
+	if ev == nil {
+		c.Bad("R12.3", core.FnName(nw), "eviction callback registered with the LRU", nw.Pos(), "the LRU is created without an eviction callback of this package: slots are never freed")
 		return
 	}
 	isAllocStore := func(in ssa.Instruction) (*ssa.Store, bool) {
@@ -574,7 +604,7 @@ func runC12(c *core.Ctx) {
 			if k, isC := core.ConstInt(st.Val); isC && k < 0 {
 				idx := st.Addr.(*ssa.IndexAddr).Index
 				for _, o := range core.Origins(idx) {
-					if ta, ok := o.(*ssa.TypeAssert); ok && len(ev.Params) == 3 && ta.X == ssa.Value(ev.Params[2]) {
+					if ta, ok := o.(*ssa.TypeAssert); ok && len(ev.Params) >= 2 && ta.X == ssa.Value(ev.Params[len(ev.Params)-1]) {
 						okEv = true
 					}
 				}
@@ -583,18 +613,7 @@ func runC12(c *core.Ctx) {
 	})
 	c.Check(okEv, "R12.3", core.FnName(ev), "eviction frees the evicted chunk's slot", ev.Pos(),
 		"allocations[value.(int)] = -1", "the eviction callback does not free the storage slot of the evicted chunk: the cache runs out of room or a live chunk's slot is reused")
-	// registered with the LRU
-	reg := false
-	for _, cl := range core.Calls(nw, false) {
-		if strings.HasSuffix(core.CalleeName(cl), "simplelru.NewLRU") {
-			for _, o := range core.Origins(cl.Common().Args[1]) {
-				if mc, ok := o.(*ssa.MakeClosure); ok && strings.Contains(mc.Fn.Name(), "onEvict") {
-					reg = true
-				}
-			}
-		}
-	}
-	c.Check(reg, "R12.3", core.FnName(nw), "eviction callback registered with the LRU", nw.Pos(), "simplelru.NewLRU(n, lf.onEvict)", "the LRU is created without the eviction callback: slots are never freed")
+	c.Ok("R12.3", core.FnName(nw), "eviction callback registered with the LRU", nw.Pos(), "simplelru.NewLRU(n, "+core.FnName(ev)+")")
 	// getChunk: the slot stored to is one found free
 	var mark *ssa.Store
 	core.Instrs(gc, func(in ssa.Instruction) {
@@ -609,24 +628,16 @@ func runC12(c *core.Ctx) {
 		// every non-constant origin of the index must be a range key guarded by allocations[k] < 0
 		okFree := true
 		any := false
-		for _, o := range core.Origins(idx) {
-			if k, isC := core.ConstInt(o); isC && k < 0 {
+		for _, vc := range valueCases(idx, mark) {
+			if k, isC := core.ConstInt(vc.v); isC && k < 0 {
 				continue // the "not found" initial value, excluded by the error return below
 			}
 			any = true
-			// the assignment storageIndex = k happens in a block guarded by v < 0 where v is the ranged element
+			// the assignment storageIndex = k happens where allocations[k] < 0 was found
 			guarded := false
-			if ph, ok := idx.(*ssa.Phi); ok {
-				for i, e := range ph.Edges {
-					if e == o {
-						for _, g := range core.BlockGuards(ph.Block().Preds[i]) {
-							if bo, ok := g.Cond.(*ssa.BinOp); ok && bo.Op == token.LSS && g.Val {
-								if z, isC := core.ConstInt(bo.Y); isC && z == 0 {
-									guarded = true
-								}
-							}
-						}
-					}
+			for _, g := range vc.guards {
+				if relHolds(g, token.LSS, anyVal, isConstInt(0)) {
+					guarded = true
 				}
 			}
 			if !guarded {
